@@ -10,7 +10,7 @@ HERE = os.path.dirname(os.path.dirname(os.path.abspath(__file__)))
 COMMON_NOTE = ("trusted: Coq 8.16.1 kernel + vm_compute (no native_compute, no extraction); no axioms (Print Assumptions = closed under "
                "the global context for every property theorem); translators/*.py + CPython re._parser/ast (regenerate coq/Gen/*.v from "
                "/repo on every run); the correspondence harness (generators, canonicalisers, coq/Corr/*.v); the hand-written Gallina "
-               "model of the Python logic is tied to the code by evaluating it inside Coq on the same cases the implementation runs, "
+               "model of the Python logic is tied to the code (a) by pin theorems: 52 functions/fragments of lasio are re-translated from /repo on every run (translators/funcs.py) and proved equal to the model function for every input (the Cxx_*_current theorems), and (b) by evaluating the model inside Coq on the same cases the implementation runs; what is not pinned is "
                "not verified against the source. ")
 
 P = {}
@@ -221,7 +221,7 @@ def main():
                                        "generated case files evaluated with vm_compute (coq/Corr), driver ./check + harness/"}],
         "checks": checks,
         "not_applicable": na,
-        "notes": "Every property is decided by machine-checked proof in Coq tied to /repo by translators (regexes, tables, I/O skeletons) and a "
+        "notes": "Every property is decided by machine-checked proof in Coq tied to /repo by translators (regexes, tables, I/O skeletons, and the bodies of 52 functions/fragments proved equal to the model functions) and a "
                  "vm_compute correspondence; see DESIGN.md. known_findings.txt lists the fixed defects (`fixed:`) and the known findings (`known:`, each with a replay under corpus/).",
     }
     with open(os.path.join(HERE, "MANIFEST.json"), "w") as f:
